@@ -27,6 +27,15 @@ pub struct HookState {
     pub snap_cap: usize,
     /// if set, the process kills itself at the k-th point (fidelity probe, forked child only)
     pub kill_at: Option<usize>,
+    /// number of points crossed while recording since the handler was created
+    pub global_points: u64,
+    /// fidelity probe: SIGKILL this process when the global point counter reaches this value
+    pub kill_at_global: Option<u64>,
+    /// fidelity probe: copy the store files into `fid_dir` at this global point
+    pub snap_at_global: Option<u64>,
+    pub fid_dir: PathBuf,
+    /// where the store lived when the fidelity snapshot was taken, and the point's name
+    pub fid_taken: Option<(PathBuf, &'static str)>,
 }
 
 pub struct SeqHooks {
@@ -60,6 +69,19 @@ impl pocket_db::verif::Hooks for SeqHooks {
         }
         let idx = st.points.len();
         st.points.push(name);
+        let g = st.global_points;
+        st.global_points += 1;
+        if st.kill_at_global == Some(g) {
+            unsafe {
+                let _ = libc::kill(libc::getpid(), libc::SIGKILL);
+            }
+        }
+        if st.snap_at_global == Some(g) {
+            let dst = st.fid_dir.clone();
+            if copy_store_files(&st.src_dir, &dst).is_ok() {
+                st.fid_taken = Some((st.src_dir.clone(), name));
+            }
+        }
         if st.kill_at == Some(idx) {
             unsafe {
                 let _ = libc::kill(libc::getpid(), libc::SIGKILL);
